@@ -69,6 +69,7 @@ Verdict prop(Tape& t, Run& run) {
 	const size_t vi = apiVersionIndices()[t.u8() % apiVersionIndices().size()];
 	const VersionCfg& ver = versions()[vi];
 	MeshOpts mo;
+	mo.allowDegenerate = true; // a triangle with a repeated index is accepted by the API and has to come back like any other
 	mo.allowLimits = true;
 	mo.alwaysUvs = !t.chance(32);
 	if (ver.stream >= 130)
